@@ -546,3 +546,46 @@ def boundary_cases(rng, quick, valid_modes):
                                     continue
                                 out.append((mode, text, f'bnd:{hn}:{bn}:{tn}' + (':par' if par else '')))
     return out
+
+
+# ----------------------------------------------------------------------------------------------------------------------
+# concretisation of the spec-side case tables (spec/ParseCases.tla, emitted by TLC)
+
+def multiline_layouts(shape, sep, names):
+    """Apply the multi-line layouts named by the spec at EVERY position of `shape` they can apply to."""
+    toks = [t for t in (_toks(shape) or []) if t.type not in TRIVIA]
+    lines = shape.split('\n')
+    out = []
+
+    def ins(line, col, what):
+        ls = list(lines)
+        ls[line - 1] = ls[line - 1][:col] + what + ls[line - 1][col:].lstrip(' ') if what.endswith(' ') or what.endswith('\n') \
+            else ls[line - 1][:col] + what + ls[line - 1][col:]
+        return '\n'.join(ls)
+
+    for i, t in enumerate(toks):
+        nxt = toks[i + 1] if i + 1 < len(toks) else None
+        if nxt is not None and t.end[0] == nxt.start[0]:
+            if 'cont-after-token' in names:
+                out.append((f'cont-after-token@{i}', ins(t.end[0], t.end[1], ' \\\n ')))
+            if 'cont-after-token-flush' in names:
+                out.append((f'cont-after-token-flush@{i}', ins(t.end[0], t.end[1], ' \\\n')))
+        if t.type == tokenize.OP and t.string in OPEN and 'break-after-open' in names:
+            out.append((f'break-after-open@{i}', ins(t.end[0], t.end[1], '\n ')))
+        if t.type == tokenize.OP and t.string in CLOSE and 'break-before-close' in names:
+            ls = list(lines)
+            ls[t.start[0] - 1] = ls[t.start[0] - 1][:t.start[1]] + '\n' + ls[t.start[0] - 1][t.start[1]:]
+            out.append((f'break-before-close@{i}', '\n'.join(ls)))
+    if sep and shape:
+        w = len(lines[-1])
+        for k in range(0, w + 1):
+            if 'sep-on-later-line' in names:
+                out.append((f'sep-on-later-line@{k}', shape + '\n' + ' ' * k + sep))
+            if 'comment-then-sep-on-later-line' in names:
+                out.append((f'comment-then-sep-on-later-line@{k}', shape + '  # c\n' + ' ' * k + sep))
+    return out
+
+
+def bridge_cases(e1, e2, bridges):
+    """<valid element> closer filler opener <valid element>"""
+    return [('br:' + b['name'], e1 + b['text'] + e2, b['core']) for b in bridges]
